@@ -34,19 +34,19 @@ def run(ctx):
         prog, info = load_program(cfg, "e57")
         ctx.configs[cfg] = info
         ctx.cfg = cfg
-        layout_rules.layouts(ctx, prog, "R1")
-        layout_rules.dispatch_table(ctx, prog, "R1")
-        packet_rules.skip_length(ctx, prog, "R2")
-        packet_rules.reserved_bytes(ctx, prog, "R2")
-        packet_rules.defaults_table(ctx, prog, "R3")
-        xml_rules.string_values_unchanged(ctx, prog, "R7")
-        bound_rules.xml_parser_options(ctx, prog, "R7")
-        packet_rules.stream_loop_shape(ctx, prog, "R4")
-        codec_rules.extract_window(ctx, prog, "R5")
-        codec_rules.append_shape(ctx, prog, "R5")
-        codec_rules.stored_form(ctx, prog, "R5")
-        width_rules.width_formula(ctx, prog, "R5")
-        page_rules.formulas(ctx, prog, "R6", side="reader")
-        page_rules.cursor_writers(ctx, prog, "R6", side="reader")
-        cache_rules.serve_only_verified(ctx, prog, cache_rules.PR, rule="R6")
+        ctx.call(layout_rules.layouts, prog, "R1")
+        ctx.call(layout_rules.dispatch_table, prog, "R1")
+        ctx.call(packet_rules.skip_length, prog, "R2")
+        ctx.call(packet_rules.reserved_bytes, prog, "R2")
+        ctx.call(packet_rules.defaults_table, prog, "R3")
+        ctx.call(xml_rules.string_values_unchanged, prog, "R7")
+        ctx.call(bound_rules.xml_parser_options, prog, "R7")
+        ctx.call(packet_rules.stream_loop_shape, prog, "R4")
+        ctx.call(codec_rules.extract_window, prog, "R5")
+        ctx.call(codec_rules.append_shape, prog, "R5")
+        ctx.call(codec_rules.stored_form, prog, "R5")
+        ctx.call(width_rules.width_formula, prog, "R5")
+        ctx.call(page_rules.formulas, prog, "R6", side="reader")
+        ctx.call(page_rules.cursor_writers, prog, "R6", side="reader")
+        ctx.call(cache_rules.serve_only_verified, prog, cache_rules.PR, rule="R6")
     ctx.cfg = None
